@@ -1751,6 +1751,22 @@ theorem unstring_counterexample_old :
 
 end examples
 
+/-- what a documentation run shows for a list of uses (annotations, defaults, … in any order) -/
+def renderUses (T : PrecTable) (uses : List Expr) : List (List Char) := uses.map (render T)
+
+/-- **Pyval.render_use_independent**: in the model every use is its own tree, so what is displayed
+for one use depends neither on the other uses nor on the order in which they are rendered (the
+`sequence` stream holds the real pipeline to that: shared, mutated sub-trees — e.g. a cached parse
+of a string annotation whose parent link is that of its last use — show up as a disagreement) -/
+theorem render_use_independent (T : PrecTable) (before after before' after' : List Expr) (e : Expr) :
+    (renderUses T (before ++ e :: after))[before.length]? = some (render T e) ∧
+    (renderUses T (before ++ e :: after))[before.length]? =
+      (renderUses T (before' ++ e :: after'))[before'.length]? := by
+  simp [renderUses]
+
+example : renderUses LT [.binary .bitAnd (.name ['F']) (.binary .bitOr (.name ['R']) (.name ['W'])),
+      .binary .bitOr (.name ['R']) (.name ['W'])] = ["F&(R|W)".toList, "R|W".toList] := by decide +kernel
+
 /-! ## 5. line wrapping and truncation are marked
 
 `unwrap` removes the continuation markers from a result list: every `LINEWRAP` item together with
